@@ -13,12 +13,13 @@ vars == <<pair, val, opt>>
 I32 == Ty(T_I32)  STR == Ty(T_STR)
 LeafF == <<Fld(1, "a", "def", I32), Fld(2, "b", "opt", STR)>>
 MidF(leaf) == <<Fld(1, "x", "def", TyStruct(leaf)), Fld(2, "xs", "opt", TyList(TyStruct(leaf))),
-                Fld(3, "m", "opt", TyMap(STR, TyStruct(leaf))), Fld(4, "n", "req", Ty(T_I64))>>
+                Fld(3, "m", "opt", TyMap(STR, TyStruct(leaf))), Fld(4, "n", "req", Ty(T_I64)),
+                Fld(6, "mk", "opt", TyMap(TyStruct(leaf), I32))>>          \* struct-keyed map, builtin value type
 RootF(mid) == <<Fld(1, "mid", "opt", TyStruct(mid)), Fld(2, "s", "def", STR), Fld(7, "ms", "opt", TySet(TyStruct(mid)))>>
 SubSeqs(s) == {SelectSeq(s, LAMBDA f : f.id \in S) : S \in SUBSET {s[i].id : i \in 1..Len(s)}}
 Extras(id) == {<<>>} \cup {<<Fld(id, "e", r, I32)>> : r \in {"req", "def", "opt"}} \cup {<<Fld(id, "e", "def", TyList(STR))>>}
 LeafTs == IF Full THEN {s \o x : s \in SubSeqs(LeafF), x \in Extras(3)} ELSE {LeafF, <<LeafF[1]>>, <<LeafF[2]>> \o <<Fld(3, "e", "def", I32)>>, <<Fld(3, "e", "req", I32)>>}
-MidKeep == IF Full THEN SUBSET {1, 2, 3, 4} ELSE {{1, 2, 3, 4}, {1, 4}, {2}, {3, 4}, {}}
+MidKeep == IF Full THEN SUBSET {1, 2, 3, 4, 6} ELSE {{1, 2, 3, 4, 6}, {1, 4}, {2, 6}, {3, 4}, {}}
 \* shareLeaf: the target's Mid refers to the source's Leaf definition itself
 Pairs ==
   {[structs |-> [Leaf |-> LeafF, Mid |-> MidF("Leaf"), Root |-> RootF("Mid"),
@@ -39,6 +40,7 @@ MidVs == {Struct(<<N9>>)}
          \cup {Struct(<<[id |-> 1, v |-> a], N9>>) : a \in LeafVs}
          \cup {Struct(<<N9, [id |-> 2, v |-> Cont(T_LIST, T_STRUCT, es)]>>) : es \in {<<>>} \cup {<<a>> : a \in LeafVs} \cup {<<a, b>> : a \in LeafVs, b \in LeafVs}}
          \cup {Struct(<<[id |-> 3, v |-> Map(T_STR, T_STRUCT, ps)], N9>>) : ps \in {<<>>} \cup {<<[k |-> S(<<107>>), v |-> a]>> : a \in LeafVs}}
+         \cup {Struct(<<N9, [id |-> 6, v |-> Map(T_STRUCT, T_I32, ps)]>>) : ps \in {<<[k |-> a, v |-> Scalar(T_I32, <<0, 0, 0, 1>>)]>> : a \in LeafVs}}
 RootVs == {Struct(<<>>), Struct(<<[id |-> 2, v |-> S(<<>>)]>>)}
           \cup {Struct(<<[id |-> 1, v |-> m]>>) : m \in MidVs}
           \cup {Struct(<<[id |-> 2, v |-> S(<<120>>)], [id |-> 1, v |-> m]>>) : m \in MidVs}
